@@ -184,19 +184,26 @@ def run(facts, tier):
             if not MANDATORY <= special:
                 t1.violate(f"{w}/is_special", f"`{w}`: the splitter does not stop at {sorted(hex(x) for x in MANDATORY - special)}; those bytes would be copied into the output unescaped", where=m["sp"])
     # reader side
-    ps = facts.hir_find(r"^jaq_json::read::parse_string", "jaq_json")
+    # the decision table on the escape letter, wherever in the reader module it lives (closure of the string reader, a helper of its own)
+    ps = [f for f in facts.hir("jaq_json") if f["def"].startswith("jaq_json::read::") and not f.get("test")]
     em = None
+    em_under_flag = False
     for f in ps:
         for m in find(f["body"], lambda n: n.get("k") == "Match" and n.get("src") == "Normal"):
             bs = {lit_value(a["pat"]["lit"]) for a in m["arms"] if a["pat"]["k"] == "Lit" and "byte" in a["pat"]["lit"]}
             if {ord("u"), ord("x")} <= bs:
                 em = m
+                # the whole table may sit under `if bytes { .. }` instead of carrying the test in each arm's guard
+                for iff in find(f["body"], lambda n: n.get("k") == "If"):
+                    cond_local = strip(iff.get("c") or {}).get("k") == "Path" and "local" in (strip(iff["c"]).get("path") or {}) and strip(iff["c"]).get("ty") == "bool"
+                    if cond_local and iff.get("t") is not None and any(x is m for x in find(iff["t"], lambda n: n.get("k") == "Match")):
+                        em_under_flag = True
     if em is None:
         t2.missing_anchor("escape table of read::parse_string")
     else:
         for ch, want in ((ord("u"), "reject"), (ord("x"), "hex")):
             arm = [a for a in em["arms"] if a["pat"]["k"] == "Lit" and lit_value(a["pat"]["lit"]) == ch][0]
-            guarded = arm.get("guard") is not None and find(arm["guard"], lambda n: n.get("k") == "Path" and "local" in n["path"])
+            guarded = em_under_flag or (arm.get("guard") is not None and find(arm["guard"], lambda n: n.get("k") == "Path" and "local" in n["path"]))
             cl = callees(arm["body"])
             got = "reject" if any("InvalidKind" in str((n.get("f") or {}).get("path", {}).get("def", "")) for n in find(arm["body"], lambda n: n.get("k") == "Call")) else ("hex" if any(c.endswith("::hex") for c in cl) else "?")
             t2.examined(("reader", chr(ch)), True, {"reader_escape": "\\" + chr(ch), "in_byte_strings": got, "only_in_byte_strings": bool(guarded)})
